@@ -188,11 +188,32 @@ where
     RA: Send,
     RB: Send,
 {
+    // A THIN generic shell: this function is monomorphised inside the caller's crate (and so would be
+    // instrumented / optimised with it); everything the simulator does happens in the non-generic
+    // `join_erased` below, compiled once in this crate.
+    let mut a = Some(oper_a);
+    let mut b = Some(oper_b);
+    let mut ra: Option<RA> = None;
+    let mut rb: Option<RB> = None;
+    {
+        let mut call_a = |migrated: bool| {
+            ra = Some((a.take().expect("join side a called twice"))(FnContext::new(migrated)));
+        };
+        let mut call_b = |migrated: bool| {
+            rb = Some((b.take().expect("join side b called twice"))(FnContext::new(migrated)));
+        };
+        join_erased(&mut call_a, &mut call_b);
+    }
+    (ra.expect("join side a did not run"), rb.expect("join side b did not run"))
+}
+
+/// The simulated fork-join.  Both closures have run (or their panic is being re-raised) when this returns.
+fn join_erased(call_a: &mut (dyn FnMut(bool) + Send), call_b: &mut (dyn FnMut(bool) + Send)) {
     if !in_shuttle() {
         // Outside a simulated run: behave like a one-thread pool.
-        let ra = oper_a(FnContext::new(false));
-        let rb = oper_b(FnContext::new(false));
-        return (ra, rb);
+        call_a(false);
+        call_b(false);
+        return;
     }
     let knobs = sim::KNOBS.with(|c| c.get()).unwrap();
     let depth = DEPTH.with(|d| d.get());
@@ -222,55 +243,43 @@ where
 
     if !steal {
         DEPTH.with(|d| d.set(depth + 1));
-        let ra = panic::catch_unwind(AssertUnwindSafe(|| oper_a(FnContext::new(false))));
-        let ra = match ra {
-            Ok(v) => v,
-            Err(p) => {
-                // rayon: if `a` panics and `b` was not stolen, `b` is never run.
-                DEPTH.with(|d| d.set(depth));
-                sim::STATS.with(|s| s.borrow_mut().panicked_joins += 1);
-                panic::resume_unwind(p)
-            }
-        };
-        let rb = oper_b(FnContext::new(false));
+        let pa = panic::catch_unwind(AssertUnwindSafe(|| call_a(false))).err();
+        // rayon: while recovering from a panic in `a` the worker still executes the pending `b`
+        let pb = panic::catch_unwind(AssertUnwindSafe(|| call_b(false))).err();
         DEPTH.with(|d| d.set(depth));
-        return (ra, rb);
+        if let Some(p) = pa.or(pb) {
+            sim::STATS.with(|s| s.borrow_mut().panicked_joins += 1);
+            panic::resume_unwind(p);
+        }
+        return;
     }
 
     sim::STATS.with(|s| s.borrow_mut().steals += 1);
-    let mut slot_b: Option<Result<RB, Box<dyn Any + Send>>> = None;
-    let slot_ptr = SendPtr(&mut slot_b as *mut _);
+    let mut slot_b: Option<Box<dyn Any + Send>> = None;
+    let slot_ptr = SendPtr(&mut slot_b as *mut Option<Box<dyn Any + Send>>);
     let child_depth = depth + 1;
     let job: Box<dyn FnOnce() + Send + '_> = Box::new(move || {
         let slot_ptr = slot_ptr;
         DEPTH.with(|d| d.set(child_depth));
-        let r = panic::catch_unwind(AssertUnwindSafe(|| oper_b(FnContext::new(true))));
-        // SAFETY: the parent is blocked in `join()` (or has not reached it yet)
-        // and does not touch the slot until the join returned.
-        unsafe { *slot_ptr.0 = Some(r) };
+        if let Err(p) = panic::catch_unwind(AssertUnwindSafe(|| call_b(true))) {
+            // SAFETY: the parent is blocked in `join()` (or has not reached it yet)
+            // and does not touch the slot until the join returned.
+            unsafe { *slot_ptr.0 = Some(p) };
+        }
     });
     let handle = spawn_erased(idx, job);
     DEPTH.with(|d| d.set(depth + 1));
-    let ra = panic::catch_unwind(AssertUnwindSafe(|| oper_a(FnContext::new(false))));
+    let pa = panic::catch_unwind(AssertUnwindSafe(|| call_a(false))).err();
     DEPTH.with(|d| d.set(depth));
     // Join on every path before the borrowed environment can go away.
-    let joined = handle.join();
-    if joined.is_err() {
-        // The job wrapper itself cannot panic (oper_b is caught); a failure here
+    if handle.join().is_err() {
+        // The job wrapper itself cannot panic (call_b is caught); a failure here
         // is shuttle tearing the execution down.
         panic!("rayon-core-sim: stolen job did not complete");
     }
-    let rb = slot_b.take().expect("rayon-core-sim: stolen job left no result");
-    match (ra, rb) {
-        (Ok(ra), Ok(rb)) => (ra, rb),
-        (Err(p), _) => {
-            sim::STATS.with(|s| s.borrow_mut().panicked_joins += 1);
-            panic::resume_unwind(p)
-        }
-        (Ok(_), Err(p)) => {
-            sim::STATS.with(|s| s.borrow_mut().panicked_joins += 1);
-            panic::resume_unwind(p)
-        }
+    if let Some(p) = pa.or(slot_b.take()) {
+        sim::STATS.with(|s| s.borrow_mut().panicked_joins += 1);
+        panic::resume_unwind(p);
     }
 }
 
